@@ -121,9 +121,10 @@ def write_if_changed(path, content):
     return True
 
 
-def regen():
-    """`lmdverif gen` prints the generated Coq files as '=== FILE name' sections"""
-    rc, out, _ = harness(["gen"])
+def regen(only=None):
+    """`lmdverif gen` prints the generated Coq files as '=== FILE name' sections;
+    only: list of the registered extra files to regenerate besides Schema.v (None = all)"""
+    rc, out, _ = harness(["gen"] + ([] if only is None else ["--only", ",".join(only)]))
     if rc != 0:
         return False, out
     cur, buf, files = None, [], {}
